@@ -164,7 +164,7 @@ def run(ctx):
         """Vacuity and model self-checks; run AFTER the engines so that they cannot turn a violation
         observed on the code into exit 2."""
         # the two mechanisms of the lazy initialisation, switched off one at a time, must violate
-        for cfg in ("Crash_self_initconsume.cfg", "Crash_self_initretry.cfg"):
+        for cfg in ("Crash_self_initconsume.cfg", "Crash_self_initretry.cfg") if thorough else ("Crash_self_initconsume.cfg",):
             r = ctx.tlc_check("chain", "MCCrash.tla", cfg, timeout=600, expect_violation=True,
                               label="self-check %s (expected to violate)" % cfg)
             if r["ok"]:
@@ -229,7 +229,10 @@ def run(ctx):
             for be, part in runs:
                 res = engine(ctx, binary, "TestCrashEnum",
                              {"consts": c, "behaviours": part, "newState": new_state[sc], "backends": [be],
-                              "pruneBatch": pb, "plain": False, "switches": faithful}, timeout=3000)
+                              "pruneBatch": pb, "plain": False, "switches": faithful,
+                              # quick tier: the mutations of the lazy initialisation are fault targets in
+                              # the from-genesis scenarios (and in the directed behaviours); everywhere in thorough
+                              "ownOnly": not thorough and sc in ("lo", "hi")}, timeout=3000)
                 ctx.absorb(res, "crash", "TestCrashEnum")
                 vlib.log("engine TestCrashEnum %s pb=%d %s: %d sequences, %.0fs" % (sc, pb, be, len(part), res["_wall_s"]))
     # ---- archive-node wiring (core.InitializeRunningEventFilter): behaviours of the model without the
